@@ -198,7 +198,7 @@ func (r *Run) clusterSubmit(p *vrt.Proc, c *vproc.Cmd) int {
 		r.violate("SIM", "stub", "cluster submit: unparseable job script: "+clip(string(script), 300))
 		return 1
 	}
-	cj := &ClusterJob{Id: fmt.Sprintf("%d", 9000+len(r.Cluster)), SubmitSeq: vos.NextSeq()}
+	cj := &ClusterJob{Id: fmt.Sprintf("%d", 9000+len(r.Cluster)), Inc: r.Inc, SubmitSeq: vos.NextSeq()}
 	r.Cluster = append(r.Cluster, cj)
 	r.Faults["cluster-job-submitted"]++
 	// the scheduler starts the job some time later, as a process of its own: it
@@ -499,6 +499,9 @@ func (r *Run) jobMain(j *JobRec) int {
 		}
 	}
 
+	if fault == "" && r.Cfg.AllSlow {
+		fault = "slow"
+	}
 	if fault == "slow" {
 		// a long computation: the stage code works for several (simulated)
 		// minutes while the monitor keeps writing heartbeats
